@@ -108,10 +108,16 @@ pub struct Capabilities {
 }
 
 /// Number of shell-facing variants (the menu).
-pub const MENU: usize = 10;
+pub const MENU: usize = 11;
 pub const MENU_NAMES: [&str; MENU] = [
-    "Single", "Two", "Sub", "Chain", "Render", "Timer", "LTimer", "Kv", "Http", "Legacy",
+    "Single", "Two", "Sub", "Chain", "Render", "Timer", "LTimer", "Kv", "Http", "Legacy", "Quiet",
 ];
+
+/// The ten effectful menu events (the main explorations); `Quiet` (index 10) joins the
+/// reduced-menu deep run of C09.
+pub fn main_menu() -> Vec<usize> {
+    (0..10).collect()
+}
 
 #[derive(Serialize, Deserialize, Debug)]
 pub enum Event {
@@ -141,6 +147,8 @@ pub enum Event {
     /// `Redirect::default()`) + legacy HTTP POST with 43 header lines (12 names with three
     /// values each) and a body through `Redirect::new(2)`
     Legacy,
+    /// only mutates the model: no effect at all, not even a render
+    Quiet,
     // ---- app-internal, but deserializable (they widen the decode surface for C12) ------------
     GotHttp(crux_http::Result<crux_http::Response<Vec<u8>>>),
     GotKvSet(Result<Option<Vec<u8>>, KeyValueError>),
@@ -175,6 +183,7 @@ pub fn menu_event(i: usize) -> Event {
         7 => Event::Kv("k1".to_string(), vec![7, 8]),
         8 => Event::Http,
         9 => Event::Legacy,
+        10 => Event::Quiet,
         _ => panic!("no such menu event"),
     }
 }
@@ -183,6 +192,7 @@ pub fn menu_event(i: usize) -> Event {
 pub struct Model {
     log: Vec<String>,
     renders: u32,
+    quiet: u32,
     sub: Option<Box<dyn Fn() + Send + Sync>>,
     ctimer: Option<TimerHandle>,
     ctimers_made: u32,
@@ -194,6 +204,7 @@ pub struct Model {
 pub struct ViewModel {
     pub log: Vec<String>,
     pub renders: u32,
+    pub quiet: u32,
     pub subscribed: bool,
     pub timers: (u32, u32),
 }
@@ -303,6 +314,10 @@ impl crux_core::App for App {
                 .then(
                     Command::request_from_shell(TinyOp::Ask(6)).then_send(|o| Event::Got(7, o)),
                 ),
+            Event::Quiet => {
+                model.quiet += 1;
+                Command::done()
+            }
             Event::Render => {
                 model.renders += 1;
                 caps.render.render();
@@ -445,6 +460,7 @@ impl crux_core::App for App {
         ViewModel {
             log: model.log.clone(),
             renders: model.renders,
+            quiet: model.quiet,
             subscribed: model.sub.is_some(),
             timers: (model.ctimers_made, model.ltimers_all.len() as u32),
         }
